@@ -1,7 +1,7 @@
 """C17 - verdicts do not depend on the order of SAN entries or of extensions."""
 import common
 
-THEOREMS = ["c17_first_offender_perm", "c17_label_lints_perm", "c17_na_first_refuted", "c17_find_ext_perm"]
+THEOREMS = ["c17_first_offender_perm", "c17_label_lints_perm", "c17_na_first_refuted", "c17_find_ext_perm", "c17_name_lints_perm", "c17_name_lints_range", "c17_name_twins_agree"]
 
 # lints that walk c.Extensions themselves (reviewed: they look extensions up by OID or test every element)
 ALLOW_EXT_READERS = None  # recorded, not gated: the dynamic permutation run decides
@@ -27,6 +27,13 @@ def run(ctx):
             ctx.violation("label-lint-model:" + "".join(c["desc"]["statuses"]), "a DNS-label lint no longer evaluates names as a set (model: finding, else NA if unparseable, else pass) on cn=%r dns=%r: statuses %s" % (
                 c["desc"]["cn"], c["desc"]["dns"], c["desc"]["statuses"]),
                 {"input": c["desc"], "theorem_or_correspondence": "correspondence Kernels.Order.lint_rfc/lint_br (c17_label_lints_perm applies to the model only)"}, found_input=False)
+    nheader = ("From ZL Require Import Base.Bytes Base.Corr Kernels.Names.\nFrom Coq Require Import ZArith List.\nImport ListNotations.\nOpen Scope Z_scope.\n"
+               "Fixpoint zl_ok (m o : list Z) : bool := match m, o with [], [] => true | x :: m', y :: o' => ((y =? -9) || (x =? y)) && zl_ok m' o' | _, _ => false end.\n"
+               "Definition chkn (c : nview * list Z) : bool := zl_ok (all_name_lints (fst c)) (snd c).\n")
+    fn = common.corr_stream(ctx, "names", d["cases"].get("names", []), nheader, "chkn",
+                            "Names.all_name_lints (fourteen name-scanning lints, modelled in full) vs the real lints through the framework")
+    if not mon:
+        common.report_disagreements(ctx, "names", fn, "Kernels.Names.all_name_lints (c17_name_lints_perm applies to the model only)", [])
     st = d.get("stats", {})
     ctx.add_eval(st.get("san_permutations", 0) + st.get("extension_permutations", 0), distinct=st.get("san_permutations", 0), traces=st.get("san_permutations", 0) + st.get("extension_permutations", 0))
     ctx.cov["rule"] = ("generated certificates whose SAN holds 2-4 GeneralNames drawn from a pool of compliant / non-compliant / unparseable names of every type (dNSName, rfc822Name, URI, "
@@ -36,5 +43,6 @@ def run(ctx):
     ctx.notes["stats"] = st
     ctx.notes["lints_reading_extension_list"] = d["data"].get("extension_list_readers")
     ctx.partial = ("theorem-backed: any rule of the form 'finding if some element offends (else NA if some element is unparseable) else pass' is permutation invariant, the seven DNS-label "
-                   "lints are modelled in that form and tied to the code by correspondence, and OID lookup in a duplicate-free extension list is order independent. Explored: every other "
-                   "lint (the ~360 bodies are not modelled), by re-encoding certificates with permuted SAN entries / extensions and comparing all status vectors.")
+                   "lints are modelled in that form and tied to the code by correspondence, fourteen more name-scanning lints (label length, empty label, characters, wildcard placement, duplicates, NUL, "
+                   "leading period, name length ...) are modelled in full in Kernels/Names.v with their verdicts proved invariant under every permutation of the SAN dNSNames, and OID lookup in a duplicate-free extension list is order independent. Explored: every other "
+                   "lint (the ~345 other bodies are not modelled), by re-encoding certificates with permuted SAN entries / extensions and comparing all status vectors.")
